@@ -27,6 +27,7 @@ class EffectSink(monitors.Sink):
         self.entered = set()  # rule ids whose fix wrapper was entered
         self.analyze_only = set()
         self.fixed = {}  # id(rule) -> list of violations handed to update()
+        self.aborted = []
         self._depth = 0
 
     def start(self, oFile):
@@ -56,6 +57,12 @@ class EffectSink(monitors.Sink):
         a = monitors.snap(oFile)
         self.last = a
         fixed = self.fixed.pop(id(rule), [])
+        import sys
+
+        if sys.exc_info()[0] is not None:
+            # the application raised (C19 reports it); a half-applied fix is not an application
+            self.aborted.append(rule.unique_id)
+            return
         if a != b or fixed:
             self.events.append(
                 {
@@ -130,7 +137,10 @@ def doc_classes():
                         d[rid] = {"phase": None, "icons": set(), "moved": True}
                         continue
                     ph = [int(x[6:]) for x in icons if x.startswith("phase_")]
-                    d[rid] = {"phase": ph[0] if ph else None, "icons": icons}
+                    if not ph:
+                        d[rid] = {"phase": None, "icons": set(), "moved": True}
+                        continue
+                    d[rid] = {"phase": ph[0], "icons": icons}
         _DOC = d
     return _DOC
 
